@@ -346,6 +346,7 @@ class ArgumentParser:
         namespace = argparse.Namespace()
         namespace.defines = []
         namespace.include_paths = []
+        namespace.system_include_paths = []
         namespace.include_files = []
         namespace.modes = []
 
@@ -362,10 +363,10 @@ class ArgumentParser:
             allow_abbrev=False,
         )
         parser.add_argument("-D", dest="defines", action="append")
+        parser.add_argument("-I", dest="include_paths", action="append")
         parser.add_argument(
-            "-I",
             "-isystem",
-            dest="include_paths",
+            dest="system_include_paths",
             action="append",
         )
         parser.add_argument(
@@ -423,6 +424,10 @@ class ArgumentParser:
         )
         if unrecognized:
             log.warning(f"Unrecognized arguments: '{' '.join(unrecognized)}'")
+
+        # A compiler searches all -I directories before any -isystem
+        # directory, whatever their order on the command line.
+        args.include_paths = args.include_paths + args.system_include_paths
 
         # Construct final list of active modes.
         args.modes = set(args.modes)
